@@ -74,7 +74,7 @@ PROPS = {
     },
     "C06": {
         "n": {"quick": 2400, "thorough": 60000}, "diff_is_failure": True, "judge": True, "trivial_outs": set(), "shrink": True,
-        "rule": "servers pre-loaded with a sentinel and one key of every type (string, integer, empty string, list, set, hash, sorted set incl. inf score, stream incl. an ID near u64::MAX with a group, 1000-element list); each probe is either a command: a name drawn from the dispatch table read from server.rs at run time, with 0-5 arguments drawn from keys of every type, 27 boundary numbers (0, +-1, i64/u64/usize/isize min/max and their neighbours, +-2^31, 2^32, 1e300, nan, inf, -0, empty, non-digits, 512 MB), option words, non-bulk and nested-array arguments; or raw hostile bytes (absurd declared lengths for * % ~ $, 100000 nested arrays, truncated frames, random bytes); after every probe a fresh connection must get PONG and the sentinel value within 4 s and the process must be alive; one evaluation = one probe; non-trivial/distinct = distinct probes (all are counted: every probe is followed by the liveness oracle)",
+        "rule": "servers pre-loaded with a sentinel and one key of every type (string, integer, empty string, list, set, hash, sorted set incl. inf score, stream incl. an ID near u64::MAX with a group, 1000-element list); each probe is either a command: a name drawn from the dispatch table read from server.rs at run time, with 0-5 arguments drawn from keys of every type, 27 boundary numbers (0, +-1, i64/u64/usize/isize min/max and their neighbours, +-2^31, 2^32, 1e300, nan, inf, -0, empty, non-digits, 512 MB), option words, non-bulk and nested-array arguments; or raw hostile bytes (absurd declared lengths for * % ~ $; 60000-100000 levels of nesting through every recursive position of the parser: array element, set member, map key, map value after a scalar key, and random mixtures; truncated frames, random bytes; one fixed case runs every hostile family whatever the seed); after every probe a fresh connection must get PONG and the sentinel value within 4 s and the process must be alive; one evaluation = one probe; non-trivial/distinct = distinct probes (all are counted: every probe is followed by the liveness oracle)",
         "explanation": "theorems: guards imply in-range operations for the modelled handlers and the parser; tie: boundary enumeration with a liveness oracle against a live server process",
         "trusted_base": ["the liveness oracle of harness/src/c06.rs (PING + GET sentinel on a fresh connection, process status)"],
         "assumptions": ["deadlock, lock poisoning, starvation and physical memory exhaustion are outside what the model can exhibit (partial)", "SRANDMEMBER with a huge negative count performs |count| iterations (known finding, work not bounded)"],
@@ -103,11 +103,12 @@ PROPS = {
     "C14": {
         "n": {"quick": 600, "thorough": 8000},
         "judge": True,
+        "shards": 8,
         "trivial_outs": {"", "i0"},
-        "rule": "cases = fixed witnesses (F-14a, F-05d, F-14b, the unit tests of pubsub.rs) + random multi-connection histories (2-5 connections; SUB/PSUB/UNSUB/PUNSUB named, all and empty; UNSUBALL; PUB; observers) over colliding pools of 10 channels and 20 patterns, each ending with a dump of every connection, every channel count and one publish per channel + the matcher on ALL (pattern, text) pairs over the alphabet {a b * ? \\} up to length 4x4 (quick) / 5x5 (thorough) + random longer pairs with texts derived from the pattern; one evaluation = one PubSubManager call (or one pattern against all texts) compared between ferrous::pubsub and the extracted Gallina model; receiver lists sorted by connection, the reported pattern of a connection with several matching patterns is an oracle checked for admissibility",
-        "explanation": "theorems: maps-consistency invariant over all histories, matcher = declarative glob (unbounded), publish delivers to exactly the connections with a matching subscription, once per connection (so the per-subscription claim is refuted: c14_delivery_refuted; partial theorem for at most one matching subscription), acknowledgement counts, nothing after unsubscribe / unsubscribe_all; tie: in-process differential run of PubSubManager + pattern_matches against the extracted model; property oracle (Redis glob semantics, per-subscription deliveries, acknowledgement counts) on the implementation's outputs",
-        "trusted_base": ["the server-level delivery of message frames (server.rs handle_publish / handle_subscribe) is not part of this check (lead's server model)"],
-        "assumptions": ["PubSubManager is driven sequentially, as the single command thread of the server does"],
+        "rule": "cases = (1) in-process PubSubManager: fixed witnesses + random multi-connection histories (2-5 connections; SUB/PSUB/UNSUB/PUNSUB named, all and empty; UNSUBALL; PUB; observers) over colliding pools of 10 channels and 20 patterns, each ending with a dump + the matcher on ALL (pattern, text) pairs over {a b * ? \\} up to 4x4 (quick) / 5x5 (thorough) + random longer pairs; (2) server level over TCP (n/6 histories): 2-4 clients, overlapping channels/patterns incl. binary names, SUBSCRIBE/PSUBSCRIBE/UNSUBSCRIBE/PUNSUBSCRIBE (named, all, nothing subscribed, malformed), PUBLISH with unique binary payloads from subscribers and non-subscribers, ordinary commands on subscribed connections, disconnects and reconnects; every third history also QUIT of subscribers (closing-leak), pipelined batches through RAW (replies owed before SUBSCRIBE; PUBLISH that reaches the publisher itself) and MULTI with an immediate PUBLISH/SUBSCRIBE; SUBCMD sends the request plus an ECHO marker in one write and collects every frame up to the marker, DRAIN collects pending pushed frames; each history ends by draining every client and one PUBLISH per channel; one evaluation = one manager call / one request with all frames the connection received, compared with the extracted Gallina model (runs of pmessage frames of one publish sorted by pattern; names of an unsubscribe-all sorted)",
+        "explanation": "theorems: manager - maps-consistency invariant over all histories, matcher = declarative glob (unbounded), PUBLISH receiver list = exactly the (connection, matching subscription) pairs each once (c14_delivery), acknowledgement counts, nothing after unsubscribe / unsubscribe_all; server - invariant along all histories of requests/connects/closes/drops, a PUBLISH writes one frame per receiver entry and replies their number, per-subscriber streams grow in event order and other requests write only to their issuer (c14_order*), pushed frames decode byte-for-byte (c14_payload_intact), (P)SUBSCRIBE confirmations carry the manager's counts, (P)UNSUBSCRIBE always confirms, nothing is written to a dropped connection; refuted: closing-leak. Tie: differential runs against the extracted model at both levels + property oracles on the implementation's outputs (acknowledgement counts, per-subscriber sequence = publish order of matching messages with bytes intact, PUBLISH reply = number of deliveries)",
+        "trusted_base": ["TCP level: the marker technique assumes the server answers the request and the ECHO marker in request order (C05)"],
+        "assumptions": ["PubSubManager is driven sequentially, as the single command thread of the server does", "TCP histories are sequential (one request in flight); a client that disconnects while subscribed appears only in the fixed closing-leak witness, because when the server finally drops it depends on a later failed write"],
     },
     "C19": {
         "n": {"quick": 500, "thorough": 6000},
@@ -125,7 +126,7 @@ PROPS = {
         "judge": True, "needs_server": False, "shards": 8,
         "trivial_outs": set(),
         "rule": "cases = histories of XADD (auto IDs with bursts, explicit ascending / equal / smaller / future / malformed IDs), XDEL, XTRIM, XRANGE/XREVRANGE/XREAD with bounds below, inside, between and above the stored IDs with and without COUNT, XLEN, DEL/RENAME, arity and non-bulk errors, on 4 stream keys + a string key, each ending with a dump (TYPE, XLEN, XRANGE - +, XINFO, XPENDING per group, KEYS, DBSIZE); one evaluation = one command's canonical reply compared between the ferrous server (fresh process per history, TCP) and the extracted Gallina model; the ID of XADD * is passed to the model as an oracle and checked for admissibility",
-        "explanation": "theorems: stream invariant (sorted, ids <= last_id, atomics and length counter agree) over all histories; auto IDs exceed every earlier ID for every clock reading; refused XADD changes nothing; XRANGE/XREVRANGE/XREAD equal the filter of the present entries outside the class xrange-end-below-first; XLEN = number of present entries; tie: differential run against the server + property oracle (BTreeMap reference driven by the implementation's replies)",
+        "explanation": "theorems: stream invariant (sorted, ids <= last_id, atomics and length counter agree) over all histories; auto IDs exceed every earlier ID for every clock reading; refused XADD changes nothing; XRANGE/XREVRANGE/XREAD equal the filter of the present entries for all bounds (after the repair dc07967); XADD * rolls over / is refused only when no greater ID exists (fb507d0); XLEN = number of present entries; tie: differential run against the server + property oracle (BTreeMap reference driven by the implementation's replies)",
         "trusted_base": ["oracle: the wall-clock reading behind XADD * (the model accepts exactly the IDs some clock reading can produce)"],
         "assumptions": ["std's binary_search contract on a sorted duplicate-free Vec (sortedness is a proved invariant of the model)", "single command thread: compare_exchange_weak on the ID atomics never fails spuriously"],
     },
@@ -134,7 +135,7 @@ PROPS = {
         "judge": True, "needs_server": False, "shards": 8,
         "trivial_outs": set(),
         "rule": "cases = histories over 2 streams x 2 groups x 3 consumers: XGROUP CREATE/DESTROY/SETID/CREATECONSUMER/DELCONSUMER, XREADGROUP (> and explicit IDs, COUNT, NOACK, BLOCK, several keys), XACK (repeated, unknown IDs), XCLAIM (idle thresholds 0 / 200 ms / never, FORCE, JUSTID), XPENDING (summary, ranges, per consumer), XINFO, XADD/XDEL/XTRIM/DEL/RENAME in between, 450 ms sleeps for the idle thresholds, each ending with a dump of every group's pending state; one evaluation = one command's canonical reply compared between the ferrous server and the extracted Gallina model (idle times zeroed on both sides)",
-        "explanation": "theorems: the four representations of the pending set agree over all histories of >-reads, XACK, XCLAIM, DELCONSUMER, CREATECONSUMER, DESTROY; > delivers in strictly increasing ID order, each entry once; XACK counts once; XPENDING summary equals the pending set; refuted: $ start, NOACK, explicit-ID read, SETID re-delivery",
+        "explanation": "theorems: the four representations of the pending set agree over all histories of >-reads, XACK, XCLAIM, DELCONSUMER, CREATECONSUMER, DESTROY; > delivers in strictly increasing ID order, each entry once; XACK counts once; XPENDING summary equals the pending set; for every start position incl. $ and with NOACK (repairs 542e5a3, 18325a2); XPENDING total on inverted ranges (8b811fd); XGROUP CREATE failure atomicity (7f9490b); still refuted: explicit-ID read, SETID re-delivery, partial failure of a multi-key XREADGROUP",
         "trusted_base": ["idle times are compared through thresholds separated from the harness clock drift (80 ms) by 450 ms sleeps"],
         "assumptions": ["single command thread (no concurrent access to a group)"],
     },
